@@ -31,5 +31,30 @@ Proof.
   rewrite mv_add by auto. unfold r. apply sub_add_assoc; rewrite !mv_length; auto.
 Qed.
 
+(* the same for the function regenerated from Model.build_full_model: when the residual models are the exact affine fit
+   (J = A, c = A xbase - b), the quadratic model (g, H) it assembles at xopt predicts exactly the true change of the objective *)
+Theorem C05_generated_model_predicts_the_true_change : forall (st : @model_state ArithR) b s n,
+  model_jac st <> [] -> Forall (fun row => List.length row = n) (model_jac st) -> List.length b = List.length (model_jac st) ->
+  List.length (xbase st) = n -> List.length (@py_model_xopt ArithR st false) = n -> List.length s = n ->
+  model_const st = vsub (mv (model_jac st) (xbase st)) b ->
+  let x := vadd (xbase st) (@py_model_xopt ArithR st false) in
+  let '(g, H) := @py_model_build_full_model ArithR st in
+  (sdot g s + / 2 * sdot s (mv H s) = ssq (vsub (mv (model_jac st) (vadd x s)) b) - ssq (vsub (mv (model_jac st) x) b))%R.
+Proof.
+  intros st b s n Hne HJ Hb Hxb Hxo Hs Hc. cbv zeta.
+  assert (Hcl: List.length (model_const st) = List.length (model_jac st)) by (rewrite Hc, vsub_len; rewrite mv_length; auto).
+  pose proof (C16_build_full_model_is_gauss_newton st s n Hne HJ Hcl Hs) as G. cbv zeta in G.
+  destruct (@py_model_build_full_model ArithR st) as [g H]. rewrite G.
+  set (J := model_jac st) in *. set (xo := @py_model_xopt ArithR st false) in *.
+  assert (E1: vadd (model_const st) (mv J xo) = vsub (mv J (vadd (xbase st) xo)) b).
+  { assert (Hl0: List.length (xbase st) = List.length xo) by exact (eq_trans Hxb (eq_sym Hxo)).
+    rewrite Hc, (mv_add J (xbase st) xo Hl0). apply sub_add_assoc; rewrite !mv_length; auto. }
+  rewrite E1. f_equal. f_equal.
+  assert (Hl: List.length (vadd (xbase st) xo) = List.length s).
+  { rewrite (vadd_length (xbase st) xo (eq_trans Hxb (eq_sym Hxo))). exact (eq_trans Hxb (eq_sym Hs)). }
+  rewrite (mv_add J (vadd (xbase st) xo) s Hl). apply sub_add_assoc; rewrite !mv_length; auto.
+Qed.
+
 Print Assumptions C05_affine_residual_is_interpolated_exactly.
+Print Assumptions C05_generated_model_predicts_the_true_change.
 Print Assumptions C05_model_is_exact_for_affine_residuals.
